@@ -124,8 +124,11 @@ pub fn run(a: &Args) {
             let path = match c["pathclass"].as_str().unwrap() {
                 "" => "".to_string(),
                 "/" => "/".to_string(),
-                "/a/b" => r.pick(&["/printers/p1", "/ipp/print", "/a/b/c/", "/x", "/printers/Some_Printer-2"]).to_string(),
-                _ => r.pick(&["/a%20b/%E2%9C%93", "/%41%2F", "/printers/%C3%BC", "/p%3Fq"]).to_string(),
+                "/a/b" => r.pick(&["/printers/p1", "/ipp/print", "/a/b/c/", "/x", "/printers/Some_Printer-2", "//printers//p1", "/a//b", "/ipp/print//",
+                    "/a/./b", "/a/../b", "/.", "/..", "/printers/q;type=1", "/printers/a:b@c", "/~user/q", "/printers/a,b", "/PRINTERS/Q", "/printers/p1/",
+                    "/a+b", "/printers/q=1&r=2", "/classes/all!", "/ipp/print/(1)", "/*", "/printers/$job", "/very/long/".repeat(40).as_str()]).to_string(),
+                _ => r.pick(&["/a%20b/%E2%9C%93", "/%41%2F", "/printers/%C3%BC", "/p%3Fq", "/%2F%2F", "/a%2f%2Fb", "/%00", "/%25", "/%7Euser", "/a%23frag",
+                    "/%e4%bd%a0", "/%2e%2e/%2E", "/x%40y%3Az"]).to_string(),
             };
             let query = if sh["hasq"].as_bool().unwrap() {
                 Some(match r.below(7) {
